@@ -9,18 +9,20 @@ EXTENDS MsgPack, Json, IOUtils
 VARIABLE l
 Feed == ndJsonDeserialize(IOEnv.FEED)
 
-RECURSIVE Session(_, _, _)
-Session(inp, lim, calls) ==
+\* successive calls on one stream, with the same filter at every call (what a filter discards is
+\* consumed all the same)
+RECURSIVE Session(_, _, _, _)
+Session(inp, lim, calls, f) ==
   IF calls = 0 THEN <<>>
-  ELSE LET r == DecodeMsgPack(inp, lim, TrueV) IN
+  ELSE LET r == DecodeMsgPack(inp, lim, f) IN
        <<[code |-> r.code, v |-> r.v, read |-> r.read]>>
        \o (IF r.code = "Ok" /\ r.read < Len(inp)
-           THEN Session(SubSeq(inp, r.read + 1, Len(inp)), lim, calls - 1) ELSE <<>>)
+           THEN Session(SubSeq(inp, r.read + 1, Len(inp)), lim, calls - 1, f) ELSE <<>>)
 
 Emit(ev) ==
   IF "session" \in DOMAIN ev
-  THEN PrintT(<<"CASE", ToJson([fmt |-> "msgpack", session |-> Session(ev.inp, ev.lim, ev.session), inp |-> ev.inp,
-                                lim |-> ev.lim, o |-> ev.o, tag |-> ev.tag])>>)
+  THEN PrintT(<<"CASE", ToJson([fmt |-> "msgpack", session |-> Session(ev.inp, ev.lim, ev.session, ev.f), inp |-> ev.inp,
+                                lim |-> ev.lim, f |-> ev.f, o |-> ev.o, tag |-> ev.tag])>>)
   ELSE LET r == DecodeMsgPack(ev.inp, ev.lim, ev.f)
            u == DecodeMsgPack(ev.inp, ev.lim, TrueV) IN
        PrintT(<<"CASE", ToJson([fmt |-> "msgpack", inp |-> ev.inp, lim |-> ev.lim, f |-> ev.f, o |-> ev.o,
